@@ -15,6 +15,7 @@ DEFAULT_FEATURES = {
     "p_sm_irows": 0.3,
     "extra_rows": 4,
     "nevents": 4,
+    "endintr_in_table": False,   # end-interrupt events are chosen among the events of the machine's own table
     "completion": False,
     "defer": False,          # state deferred_events lists
     "defer_action": False,   # Defer functor rows
@@ -46,7 +47,7 @@ PROFILES = {
     "all":   {"completion": True, "defer": True, "history": True, "blocking": True},
     "flags": {"flags": True, "max_depth": 2, "p_sub": 0.45},
     "events": {"base_events": True, "kleene": True, "nevents": 5},
-    "common": {"completion": True, "defer_root": True, "history": True, "p_sm_irows": 0.0, "p_state_irows": 0.0, "fixed_completion_guards": True,
+    "common": {"endintr_in_table": True, "completion": True, "defer_root": True, "history": True, "p_sm_irows": 0.0, "p_state_irows": 0.0, "fixed_completion_guards": True,
                "unguarded_completion": True,
                "blocking_root": True, "flags": True, "max_regions": 2, "single_completion_region": True},
     "copy":  {"history": True, "defer": True, "completion": True, "p_sub": 0.5, "pseudo": True, "max_depth": 1},
@@ -111,6 +112,14 @@ class Gen:
                     rows.append(self.mk_row(src, None, internal=True))
                 else:
                     rows.append(self.mk_row(src, rng.choice(members)))
+        if f["endintr_in_table"]:
+            # backmp11 favor_compile_time recognises an end-interrupt event only if it occurs in the machine's own table
+            # (known finding F14): the common subset only uses end events that do
+            in_table = sorted({r["trig"][1] for r in rows if isinstance(r["trig"], list)})
+            for st in states:
+                if isinstance(st["kind"], list) and st["kind"][0] == "intr":
+                    ends = [e for e in st["kind"][1:] if e in in_table]
+                    st["kind"] = (["intr"] + ends) if ends else ((["intr", in_table[0]]) if in_table else "term")
         rng.shuffle(rows)
         # make conflicts likely: duplicate the trigger of an existing row from the same source
         for _ in range(rng.randint(0, 2)):
@@ -218,6 +227,10 @@ class Gen:
                 r["trig"] = ["ev", ex]
                 r["exitpt"] = p
                 rows.append(r)
+        # mpl::vector holds 20 rows (BOOST_MPL_LIMIT_VECTOR_SIZE): drop rows from the end - the ones appended last use the
+        # pseudo states of submachines and are not needed to make a state of this machine known to the library
+        while len(rows) > 20:
+            rows.pop()
         m = machine(states, inits, rows, irows, hist)
         if f["pseudo"] and depth > 0:
             m["_pseudo"] = pseudo
